@@ -643,5 +643,20 @@ def gen_all_algos_plan(rng, tier="quick", stateful=False, random_algos=True):
         root["algos"] = [sched_spec(rng, dates), {"a": "WeighSpecified", "weights": {n: round(w / tot, 4) for n, w in zip(names, ws)}}, {"a": "Rebalance"}]
     else:
         root["algos"] = stack(tickers)
+    # declared universes (strings / objects): the universe filter and lazy creation paths
+    for _p, s in trees.strategies(root):
+        if not any(c["k"] == "S" for c in s["children"]) and rng.random() < 0.6:
+            decl = rng.choice(["str", "obj", "lazy"])
+            names = rng.sample(tickers, rng.randint(max(1, len(tickers) - 1), len(tickers)))
+            s["children"] = [{"k": "X", "name": t, "cls": "Security", "mult": 1.0, "decl": decl} for t in names]
+            _restrict_all(s, names)
     cfg = {"integer": rng.random() < 0.5, "comm": commod.gen(rng, feedmod.min_unit(fspec["prices"])) if rng.random() < 0.5 else None, "capital": capital, "fi": False, "obs_price": False, "obs_eod": False, "profile": "all_algos"}
     return {"driver": "engine", "cfg": cfg, "tree": root, "feed": fspec, "extra": extra, "fired": fired}
+
+
+def _restrict_all(s, names):
+    """keep explicitly named tickers / frame columns inside the strategy's declared universe"""
+    _restrict(s, names)
+    for a in s.get("algos", []):
+        if a.get("a") == "SelectRegex":
+            pass
